@@ -4,6 +4,7 @@ CONSTANTS
   Vals = {0}
   INF = 1000000
   MaxDim = 3
+  MaxBlocked = 0
   AssignInf = FALSE
   FlagDims = {3}
   Mode = "all"
